@@ -1,0 +1,80 @@
+//go:build verif
+
+// Contracts for the deductive verifier in /verif (comment-only; compiled only with -tags verif).
+// Proved here: constructor behaviour, refusals, index safety for every N, frames.
+// That Transform computes the DFT is NOT proved (bounded stand-in, DESIGN §5 C19).
+
+package fft
+
+//@ func lastPow2
+//@   modifies nothing
+//@   ensures (N < 2 || N > 134217728) <==> err != nil
+//@   ensures err == nil ==> 1 <= p && p <= 27 && n == pow2(p) && n <= N && N < 2*n
+//@   loop 1
+//@     invariant 1 <= p && p <= 27 && i == pow2(p) && i <= N
+//@     decreases N - i
+
+//@ func roots
+//@   requires N >= 0
+//@   modifies nothing
+//@   ensures len(r0) == N && off(r0) == 0 && fresh(r0)
+//@   loop 1
+//@     invariant 0 <= n && n <= N
+
+//@ func permutationIndex
+//@   requires 0 <= P && P <= 27
+//@   modifies nothing
+//@   ensures len(r0) == pow2(P) && off(r0) == 0 && fresh(r0)
+//@   ensures forall i int :: {r0[i]} 0 <= i && i < pow2(P) ==> 0 <= r0[i] && r0[i] < pow2(P)
+//@   loop 1
+//@     invariant 0 <= p && p <= P && n == pow2(p) && n <= N
+//@     invariant forall i int :: {index[i]} 0 <= i && i < n ==> 0 <= index[i] && index[i] < n
+//@   loop 2
+//@     invariant 0 <= i && i <= n
+//@     invariant forall t int :: {index[t]} 0 <= t && t < i ==> 0 <= index[t] && index[t] < 2*n && emod(index[t], 2) == 0
+//@     invariant forall t int :: {index[t]} i <= t && t < n ==> 0 <= index[t] && index[t] < n
+//@     invariant forall t int :: {index[t]} n <= t && t < n + i ==> 0 <= index[t] && index[t] < 2*n
+
+//@ func inputPermutation
+//@   requires len(p) <= len(x)
+//@   requires forall i int :: {p[i]} 0 <= i && i < len(p) ==> 0 <= p[i] && p[i] < len(x)
+//@   modifies x
+//@   loop 1
+//@     invariant 0 <= $i
+
+//@ func New
+//@   modifies nothing
+//@   ensures (N < 2 || N > 134217728) <==> err != nil
+//@   ensures err == nil ==> 1 <= f.p && f.p <= 27 && f.N == pow2(f.p) && f.N <= N && N < 2*f.N
+//@   ensures err == nil ==> len(f.E) == f.N && len(f.perm) == f.N && off(f.E) == 0 && off(f.perm) == 0 && fresh(f.E) && fresh(f.perm)
+//@   ensures err == nil ==> forall i int :: {f.perm[i]} 0 <= i && i < f.N ==> 0 <= f.perm[i] && f.perm[i] < f.N
+
+//@ func FFT.Transform
+//@   requires 0 <= f.p && f.p <= 27 && f.N == pow2(f.p) && len(f.E) == f.N && len(f.perm) == f.N
+//@   requires forall i int :: {f.perm[i]} 0 <= i && i < f.N ==> 0 <= f.perm[i] && f.perm[i] < f.N
+//@   requires ref(x) != ref(f.E)
+//@   panics when len(x) != f.N
+//@   modifies x
+//@   ensures r0 == x
+//@   loop 1
+//@     invariant 1 <= p && p <= f.p + 1 && n == pow2(p-1) && s == pow2(f.p - p + 1) && s * n == f.N && n >= 1 && s >= 1
+//@   loop 2
+//@     invariant 0 <= b && b <= s && 2 * (s * n) == f.N && s >= 1
+//@   loop 3
+//@     invariant 0 <= k && k <= n
+//@   assert before loop 2: 2 * s == pow2(f.p - p + 1) && s == pow2(f.p - p)
+//@   use in loop 3: mul_mono(b, s - 1, n)
+//@   use in loop 3: mul_mono(k, n - 1, s)
+//@   use in loop 3: mul_mono(k + n, 2*n - 1, s)
+
+//@ func FFT.Inverse
+//@   requires 0 <= f.p && f.p <= 27 && f.N == pow2(f.p) && len(f.E) == f.N && len(f.perm) == f.N
+//@   requires forall i int :: {f.perm[i]} 0 <= i && i < f.N ==> 0 <= f.perm[i] && f.perm[i] < f.N
+//@   requires ref(x) != ref(f.E)
+//@   panics when len(x) != f.N
+//@   modifies x
+//@   ensures r0 == x
+//@   loop 1
+//@     invariant 1 <= i
+//@   loop 2
+//@     invariant 0 <= $i
